@@ -547,6 +547,7 @@ class Transaction:
         # 2. Process deletes (rewrite affected manifests)
         final_manifests: List[ManifestFile] = []
         if deleted_paths:
+            deleted_rel = {p.lstrip("/") for p in deleted_paths}
             for manifest in existing_manifests:
                 manifest_path = manifest.manifest_path
                 if manifest_path.startswith("/"):
@@ -560,10 +561,13 @@ class Transaction:
                         f"Failed to read manifest {manifest.manifest_path} during delete operation"
                     ) from e
 
+                # 'data/x' and '/data/x' are the two accepted spellings of one
+                # table-relative path, on either side: compare without the slash.
+                # (Stripping it from the manifest side only made a delete that
+                # named '/data/x' commit a snapshot that still listed 'data/x'.)
                 surviving_files = [
                     f for f in data_files
-                    if f.file_path not in deleted_paths
-                    and f.file_path.lstrip("/") not in deleted_paths
+                    if f.file_path.lstrip("/") not in deleted_rel
                 ]
 
                 if len(surviving_files) == len(data_files):
